@@ -15,8 +15,9 @@ RULE = (
     "nested compound reached through fields, items and references, the handle chain (starting at the object the "
     "constructor returned) is compared with a view chain started from T._from_buffer(buffer, offset) and with views "
     "of views: equal value at every index (both equal to the model), equal _shape, _strides (as int tuples), _size "
-    "and _get_size(); a write through the view is seen through the handle and conversely; all of it again after the "
-    "buffer has grown. Non-trivial = a compared compound at depth >= 1 is an array with dynamic shape, an array of "
+    "and _get_size(), equal to_nplike()/to_nparray() of every array of scalars (asked at every stage, so an object that "
+    "answered once is asked again later); a write through the view is seen through the handle and conversely; all of it again after the "
+    "buffer has grown, and once more after writes made after the growth. Non-trivial = a compared compound at depth >= 1 is an array with dynamic shape, an array of "
     "dynamic items or a struct with >= 2 dynamic fields; distinct = distinct case JSON."
 )
 ASSUMPTIONS = c01.ASSUMPTIONS + ["writes are fitting: strings no longer (in bytes) than the string they replace"]
